@@ -73,6 +73,7 @@ def run(ctx):
     sigs = signals(ctx, 150 if ctx.tier == 'quick' else 3000, 1 if ctx.tier == 'quick' else 8)
     cases, meta = [], []
     kinds = {}
+    tol0 = Ucls().tolerance
     for tag, s in sigs:
         kinds[tag.split(':')[0]] = kinds.get(tag.split(':')[0], 0) + 1
         ctx.count_eval(key=tuple(s))
@@ -91,8 +92,25 @@ def run(ctx):
         r3 = uni_decode(U, s)
         if r2 != r or r3 != r:
             ctx.report(where, 'code depends on instance or history', info, dict(signal=s, source=tag, first=r[1], fresh=str(r2[1:2]), again=str(r3[1:2])))
+        # ... also when the signal decoded just before is a NEAR one: every duration within the tolerance window of this signal's,
+        # yet another signal (the code of the probe must be the one a fresh instance gives, whatever was decoded before)
+        tol = tol0
+        if U.tolerance != tol0:
+            # a decode changed the settings of the instance: later codes would depend on this history
+            ctx.report(where, 'code depends on instance or history', dict(kind='settings', n=len(s)),
+                       dict(signal=s, source=tag, tolerance_before=tol0, tolerance_after=U.tolerance))
+            U.tolerance = tol0
+        for pattern in ('random', 'alt', 'random'):
+            sp = gen_inputs.perturb(s, int(tol * 3), pattern, rng)          # up to 3/4 of the tolerance
+            fresh = uni_decode(Ucls(), sp)
+            uni_decode(U, s)
+            after = uni_decode(U, sp)
+            ctx.count_eval(key=('near', tuple(sp)))
+            if after != fresh:
+                ctx.report(where, 'code depends on instance or history', info,
+                           dict(signal=sp, source=tag + ' near-signal history', history=[s], fresh=str(fresh[1:2]), after_history=str(after[1:2])))
+                break
         # stability under a quarter of the tolerance
-        tol = U.tolerance
         for pattern in ('long', 'short', 'alt', 'random'):
             sp = gen_inputs.perturb(s, tol, pattern, rng)
             rp = uni_decode(U, sp)
@@ -109,6 +127,31 @@ def run(ctx):
         if integral:
             cases.append((vlib.zlist(norm), [0, code]))
             meta.append((tag, s, norm))
+    # degenerate histories (signals the pair-table decode cannot handle, decoded several times - a held key) must leave no trace either:
+    # the settings of the instance and the codes of later signals stay what they are on a fresh instance
+    degenerate = [[13000, -3000] + [1000, -1000] * 7, [500, -500] * 9, [9000, -4500] + [560, -560] * 12 + [560, -40000]]
+    probes = [sg for _, sg in sigs[:40]]
+    for hist in degenerate:
+        inst = Ucls()
+        for _ in range(3):
+            uni_decode(inst, hist)
+        ctx.count_eval(key=('degenerate', tuple(hist[:6]), len(hist)))
+        if inst.tolerance != tol0:
+            ctx.report('Universal', 'code depends on instance or history', dict(kind='settings', n=len(hist)),
+                       dict(signal=hist, source='degenerate history', history=[hist] * 3, tolerance_before=tol0, tolerance_after=inst.tolerance))
+            break
+        for sg in probes:
+            sp = gen_inputs.perturb(sg, tol0, 'random', rng)
+            fresh = uni_decode(Ucls(), sp)
+            after = uni_decode(inst, sp)
+            ctx.count_eval(key=('after-degenerate', tuple(sp)))
+            if fresh != after:
+                ctx.report('Universal', 'code depends on instance or history', dict(kind='degenerate', n=len(sp)),
+                           dict(signal=sp, source='probe after a degenerate history', history=[hist] * 3, fresh=str(fresh[1:2]), after_history=str(after[1:2])))
+                break
+    if U.tolerance != tol0:
+        ctx.report('Universal', 'code depends on instance or history', dict(kind='settings', n=0),
+                   dict(signal=[], source='tolerance of the singleton after the run', tolerance_before=tol0, tolerance_after=U.tolerance))
     cases = [c for c in cases if c[0] is not None]
     bad = vlib.run_model_cases(ctx, 'corr_universal', 'Require Import PyIR.Util.Universal.', 'run_universal', 'list Z',
                                cases, shard=200, timeout=900)
